@@ -209,6 +209,12 @@ func (sh *Shared) RunPath(h *ssa.Function, prefix []Decision, s *solver.Solver, 
 				res.Status = "crash"
 				recordCrash(i, "goroutine: "+r.Reason)
 			}
+			if r.Kind == "block" {
+				// every goroutine of the code under test waits for something nobody will ever do:
+				// in the node this is a wedge (the second implicit assertion of every harness)
+				res.Status = "wedge"
+				recordImplicit(i, WedgeLabel, r.Reason)
+			}
 			if os.Getenv("SYMGO_DEBUG") != "" && r.Kind == "goroutine-panic" {
 				buf := make([]byte, 6000)
 				buf = buf[:runtime.Stack(buf, false)]
@@ -273,7 +279,12 @@ func isTargetPanic(r interface{}) bool {
 // CrashLabel is the implicit assertion of every harness.
 const CrashLabel = "crash.unrecovered-panic"
 
-func recordCrash(i *interpreter, reason string) {
+// WedgeLabel: the code under test must not block forever (deadlock, a wait nobody ends).
+const WedgeLabel = "wedge.blocks-forever"
+
+func recordCrash(i *interpreter, reason string) { recordImplicit(i, CrashLabel, reason) }
+
+func recordImplicit(i *interpreter, label string, reason string) {
 	defer func() {
 		if r := recover(); r != nil {
 			if ap, ok := r.(*abortPath); ok && ap.Kind == "assert-end" {
@@ -282,7 +293,7 @@ func recordCrash(i *interpreter, reason string) {
 			i.ps.Res.Unknowns++
 		}
 	}()
-	(&frame{i: i, g: i.sched.main}).assertProp(CrashLabel, term.False, reason)
+	(&frame{i: i, g: i.sched.main}).assertProp(label, term.False, reason)
 }
 
 // globalAddr returns the address of global g, initialising its package on first use.
